@@ -95,7 +95,7 @@ def gillespie_case(rng, sis, **kw):
     elif r < 0.8:
         c["init"] = dict(kind="single", node=rng.choice(nodes))
     elif r < 0.9:
-        c["init"] = dict(kind="rho", rho=str(rng.choice([F(1, 4), F(1, 2), F(1, 8), F(3, 4), F(1)])))
+        c["init"] = dict(kind="rho", rho=str(rng.choice([F(1, 4), F(1, 2), F(1, 8), F(3, 4), F(1), F(0)])))
     else:
         c["init"] = dict(kind="default")
     c["recs"] = []
@@ -104,7 +104,7 @@ def gillespie_case(rng, sis, **kw):
         rest = [u for u in nodes if u not in used]
         if rest:
             c["recs"] = rng.sample(rest, rng.randint(1, min(2, len(rest))))
-    c["tmin"] = str(rng.choice([F(0), F(0), F(1), F(-1, 2), F(5, 2)]))
+    c["tmin"] = str(rng.choice([F(0), F(0), F(1), F(-1, 2), F(5, 2), F(-3)]))
     c["tmax"] = rng.choice(["inf", "inf"] + [str(F(c["tmin"]) + d) for d in (F(1, 2), 2, 5, 20)]) if not sis else str(F(c["tmin"]) + rng.choice([F(1, 2), 2, 4, 8]))
     c["full"] = rng.random() < 0.5
     return c
